@@ -101,6 +101,20 @@ def threshold_rules(chk, F, an, tag, prefix="A1"):
     tl = sums[0][1]["dest"]["local"] if len(sums) == 1 else (shift_locals[0] if len(shift_locals) == 1 and len([d for d in inc.defs_of(shift_locals[0])]) == 1 else None)
     chk.ob(prefix + ".anchors", inc.key + tag, tl is not None and len(gs) >= 1,
            "could not locate the total tree height (sum calls %d, 2^t computations %d) and the threshold comparison (%d) in %s" % (len(sums), len(shift_locals), len(gs), inc.path), where=inc.loc())
+    # the total is a *sum* of heights (the key has 2^(h1+..+hL) leaves): no product / multiplication in the routine or its closures
+    mults = []
+    for p_, g_ in F.fns.items():
+        if p_ == inc.path or p_.startswith(inc.path + "::{closure"):
+            for b, t in g_.iter_terms():
+                if g_.blocks[b]["cleanup"]:
+                    continue
+                last = core.strip_generics(core.callee_path(t) or "").rsplit("::", 1)[-1] if t["k"] == "call" else None
+                if last in ("product", "saturating_mul", "checked_mul", "wrapping_mul", "overflowing_mul", "mul") or \
+                        (t["k"] == "assert" and t["msg"]["kind"] == "Overflow" and t["msg"].get("op") == "Mul"):
+                    mults.append(g_.loc(b))
+    chk.ob(prefix + ".total-height-is-a-sum", inc.key + tag, not mults,
+           "%s multiplies while computing the exhaustion bound (at %s): the number of leaves is 2^(sum of the heights); a product of heights equals the sum "
+           "only for shapes like one level or 2+2, every other key is never (or too early) detected as exhausted" % (inc.path, mults[:2]), where=inc.loc())
     if tl is not None and gs:
         gb = gs[0].block
         for lo, hi in ((1, 31), (32, 63), (64, 200)):
